@@ -4,9 +4,10 @@ independent python oracle that judges the logged run directly (completed, every 
 round, every worker through every barrier of every round, every worker exited)."""
 PROP = "C05"
 SUBCHECKS = ["C05L"]   # links Protocol.v to Queue.v (C06 contract) and Determinism.v (C04 rounds): props/C05L.v
-AREAS = []
+AREAS = ["queue"]
 THEOREMS = ["inv_reachable", "no_lost_wakeup", "deadlock_free", "oversize_blocks_old_rule_refuted",
-            "measure_decreases", "terminates", "run_reaches_final", "final_complete", "enabledb_sound", "stuckb_sound"]
+            "measure_decreases", "terminates", "run_reaches_final", "final_complete", "enabledb_sound", "stuckb_sound",
+            "queue_close_wakes_all_in_source"]
 RULE = ("trace validation + stuck detection: each case (scheduler seed, 1..16 threads, queue capacity from 0 / below one "
         "contig to 2^64-1, mode s = concatenated (token block every <pack> contigs) or m, script of push / drain / "
         "sync_and_flush calls; upper-case mode = wait for finalize() to return) is run on the REAL "
